@@ -360,7 +360,7 @@ pub fn random(args: &Args) {
         let mut scfg = vec![];
         for k in 0..2usize {
             let (rxm, txm) = (rng.range(1, 4) as usize, rng.range(1, 4) as usize);
-            let (rxp, txp) = (*rng.pick(&[24usize, 64, 200, 600]), *rng.pick(&[24usize, 64, 200, 600]));
+            let (rxp, txp) = (*rng.pick(&[24usize, 64, 200, 600]), *rng.pick(&[24usize, 64, 200, 600, 2048]));
             let mut s = udp::Socket::new(
                 udp::PacketBuffer::new(vec![udp::PacketMetadata::EMPTY; rxm], vec![0u8; rxp]),
                 udp::PacketBuffer::new(vec![udp::PacketMetadata::EMPTY; txm], vec![0u8; txp]),
@@ -484,6 +484,9 @@ pub fn random(args: &Args) {
                     _ => hdr,
                 };
                 let size = rng.range(4 + over as u64, (w.socks[k].txp as u64 + 8).min(1400).max(5 + over as u64)) as usize;
+                // IPv6 cannot be fragmented by the sender's stack: datagrams whose IP length lies within a few octets of
+                // the IP MTU (1500; the Ethernet frame may be 14 octets longer) either fit or are dropped, never sent longer
+                let size = if v6 && w.socks[k].kind == 0 && w.socks[k].txp >= 1600 && rng.chance(40) { rng.range(1495 - 48, 1520 - 48) as usize } else { size };
                 let last = *rng.pick(&arp_delay.keys().cloned().collect::<Vec<u8>>());
                 let dst: [u8; 4] = match rng.below(10) {
                     0 | 1 => [192, 168, 7, rng.range(1, 200) as u8],
@@ -533,7 +536,12 @@ pub fn random(args: &Args) {
                         }, 0)
                     }
                 };
-                t.ev(json!({"ev":"api","now":w.now,"call":"send","sock":k,"did":did,"size":size,"dst":ipj(&dst),"dport":dport,"err":err}));
+                let iplen = match w.socks[k].kind {
+                    0 => hdr + 8 + size,
+                    1 => hdr + size,
+                    _ => size,
+                };
+                t.ev(json!({"ev":"api","now":w.now,"call":"send","sock":k,"did":did,"size":size,"iplen":iplen,"dst":ipj(&dst),"dport":dport,"err":err}));
                 next_did += 1;
                 last_send = w.now;
             }
